@@ -23,7 +23,7 @@ from ..rundir import GEN as _GEN  # noqa: E402
 EXTRA_PROOF_FILES = ["generated/Facts_coercers.v"]
 ASSUMPTIONS = [
     "the stdlib constructors (Decimal, UUID, date/datetime.fromisoformat) are oracles: each case carries the real result of the real constructor",
-    "round-trip of canonical text: proved for UUIDs and dates against the concrete text model of Model/Text.v (which is compared with the stdlib on every run); UUIDs, dates and datetimes with whole-minute offsets are covered; for Decimal it is a stdlib property that is sampled, not proved",
+    "round-trip of canonical text: proved for UUIDs and dates against the concrete text model of Model/Text.v (which is compared with the stdlib on every run); UUIDs, dates and datetimes with whole-second offsets are covered; for Decimal it is a stdlib property that is sampled, not proved",
     "treatment of subclasses of the *source* types (str subclasses, bool as int) is outside the claim",
 ]
 TRUSTED_EXTRA = ["fact translator harness/facts/coercers.py (python ast) regenerates coq/generated/Facts_coercers.v from /repo on every run"]
@@ -310,7 +310,9 @@ def text_model(rng: random.Random, tier: str) -> List[dict]:
         t_ = from_py(x, None)
         return t_[1], (None if t_[2] is None else t_[2].x)
     tzs = [None, timezone.utc, timezone(timedelta(hours=-5, minutes=-30)), timezone(timedelta(hours=14)), timezone(timedelta(hours=-12)),
-           timezone(timedelta(minutes=1)), timezone(timedelta(minutes=-1)), timezone(timedelta(hours=23, minutes=59)), timezone(timedelta(hours=-23, minutes=-59))]
+           timezone(timedelta(minutes=1)), timezone(timedelta(minutes=-1)), timezone(timedelta(hours=23, minutes=59)), timezone(timedelta(hours=-23, minutes=-59)),
+           timezone(timedelta(seconds=1)), timezone(timedelta(seconds=-1)), timezone(timedelta(hours=1, minutes=1, seconds=1)),
+           timezone(timedelta(hours=-23, minutes=-59, seconds=-59)), timezone(timedelta(hours=23, minutes=59, seconds=59)), timezone(timedelta(seconds=-3599))]
     dtl = [datetime.min, datetime.max, datetime(2020, 1, 2, 3, 4, 5, 678901), datetime(2020, 1, 2, 3, 4, 5), datetime(2020, 2, 29, 23, 59, 59, 999999),
            datetime(1, 1, 1, 0, 0, 0, 1), datetime(9999, 12, 31, 0, 0, 0), datetime(2000, 2, 29, 12, 0, 0, 100000), datetime(1900, 3, 1, 0, 0, 1, 10)]
     dtl += [x.replace(tzinfo=z) for x in dtl[2:6] for z in tzs[1:]]
@@ -318,7 +320,7 @@ def text_model(rng: random.Random, tier: str) -> List[dict]:
         x = datetime.min + timedelta(microseconds=rng.randrange(0, 315537897599999999))
         if rng.random() < 0.4:
             x = x.replace(microsecond=0)
-        z = rng.choice(tzs + [timezone(timedelta(minutes=rng.randrange(-1439, 1440)))])
+        z = rng.choice(tzs + [timezone(timedelta(minutes=rng.randrange(-1439, 1440))), timezone(timedelta(seconds=rng.randrange(-86399, 86400)))])
         dtl.append(x.replace(tzinfo=z))
     for x in dtl:
         fl, tzs_ = _dt_fields(x)
@@ -329,7 +331,7 @@ def text_model(rng: random.Random, tier: str) -> List[dict]:
     tstrs: List[str] = ["2020-01-02T03:04:05", "2020-01-02 03:04:05", "2020-01-02t03:04:05", "2020-01-02T03:04", "2020-01-02T03", "2020-01-02", "2020-01-02T03:04:05.5",
                         "2020-01-02T03:04:05.000000", "2020-01-02T03:04:05.1234567", "2020-01-02T03:04:05,123456", "2020-01-02T24:00:00", "2020-01-02T23:60:00",
                         "2020-01-02T23:59:60", "2020-01-02T03:04:05Z", "2020-01-02T03:04:05+00:00", "2020-01-02T03:04:05-00:00", "2020-01-02T03:04:05+24:00",
-                        "2020-01-02T03:04:05+23:59", "2020-01-02T03:04:05+01:60", "2020-01-02T03:04:05+0100", "2020-01-02T03:04:05+01", "2020-01-02T03:04:05+01:00:30",
+                        "2020-01-02T03:04:05+23:59", "2020-01-02T03:04:05+01:60", "2020-01-02T03:04:05+0100", "2020-01-02T03:04:05+01", "2020-01-02T03:04:05+01:00:30", "2020-01-02T03:04:05-00:00:01", "2020-01-02T03:04:05+01:00:60", "2020-01-02T03:04:05+01:00:3", "2020-01-02T03:04:05+01:00:30.5",
                         "2020-01-02T03:04:05.000007-05:30", "20200102T030405", "2020-02-30T00:00:00", "0000-01-01T00:00:00", "2020-01-02T03:04:5", "2020-01-02T3:04:05",
                         "2020-01-02T03:04:05 ", " 2020-01-02T03:04:05", "2020-01-02T03:04:05.\u0661\u0662\u0663456", "2020-01-02T03:04:05+\u0660\u0661:00", ""]
     for x in dtl[: max(25, n_d // 2)]:
